@@ -3221,7 +3221,7 @@ fn probe_fixed_header(&mut self) -> (r: Result<(), ProtocolError>)
             None => final(self).packet_length is None && (r is Err <==> old(self).read_bytes >= 5),
         }),
         r matches Err(e) ==> e is MalformedPacket,
-        r is Ok ==> reader_inv(*final(self)),
+        reader_inv(*final(self)),
         r is Ok ==> probed(*final(self)),
 {
         if self.read_bytes <= 1 {
@@ -3288,8 +3288,12 @@ fn receive_buffer(&mut self) -> (r: Result<&mut [u8], ProtocolError>)
                     final(self).packet_length == (match announced(rbuf(*old(self)), old(self).read_bytes as int) { Some(t) => Some(t as usize), None => None::<usize> }))
             && (old(self).packet_length is None && old(self).read_bytes <= 1 ==> final(self).packet_length is None),
         r matches Ok(w) ==> w@.len() == window(*final(self)) && old(self).read_bytes + w@.len() <= rbuf(*old(self)).len(),
-        r is Ok ==> rbuf(*final(self)).subrange(0, old(self).read_bytes as int) == rbuf(*old(self)).subrange(0, old(self).read_bytes as int),
-        r is Ok ==> reader_inv(*final(self)) && probed(*final(self)),
+        r matches Ok(w) ==> final(w)@.len() == w@.len() && w@ == rbuf(*old(self)).subrange(old(self).read_bytes as int, old(self).read_bytes + w@.len())
+            && rbuf(*final(self)) =~= rbuf(*old(self)).subrange(0, old(self).read_bytes as int) + final(w)@
+            + rbuf(*old(self)).subrange(old(self).read_bytes + w@.len(), rbuf(*old(self)).len() as int),
+        (r is Ok && final(self).packet_length is None) ==> old(self).read_bytes <= 4,
+        r is Err ==> rbuf(*final(self)) == rbuf(*old(self)),
+        reader_inv(*final(self)) && (r is Ok ==> probed(*final(self))),
         r matches Err(e) ==> e is MalformedPacket,
         (final(self).packet_length matches Some(t) && t > rbuf(*old(self)).len()) ==> r is Err,
 {
@@ -3864,6 +3868,20 @@ pub proof fn lemma_first_ret_min(c: Seq<RetainedPacket>, id: u16, j: int)
     }
 }
 
+pub open spec fn pingreq_pending(o: Outbound) -> bool {
+    exists|i: int| 0 <= i < o.pending_control@.len() && (#[trigger] o.pending_control@[i]).action == ControlAction::PingReq && o.pending_control@[i].state != SendState::Sent
+}
+/// C10: a PINGREQ is queued exactly when none is outstanding or pending and the send deadline has passed
+pub open spec fn ping_due(s: Session, now: Instant) -> bool {
+    s.runtime.ping_timeout is None
+        && (s.runtime.next_ping matches Some(d) && now.ticks() >= d.ticks())
+        && !pingreq_pending(s.data.outbound)
+}
+/// C10: the wait for PINGRESP is over
+pub open spec fn ping_expired(s: Session, now: Instant) -> bool {
+    s.runtime.ping_timeout matches Some(d) && now.ticks() >= d.ticks()
+}
+
 impl<'buf> Session<'buf> {
 fn handle_disconnect(&mut self)
     requires
@@ -3991,6 +4009,7 @@ async fn flush_current(
         final(self).live ==> old(self).live,
         final(self).io.wire@ == old(self).io.wire@ && final(self).io.inbound@ == old(self).io.inbound@,
         r matches Err(e) ==> (e is Disconnected || e is Transport) && !final(self).live,
+        r matches Err(e) ==> e is Disconnected ==> !old(self).live,
         r is Ok ==> final(self).live && flushed_upd(cs(*final(self)).data.outbound, cs(*old(self)).data.outbound, packet)
             && rt_frame_ka(cs(*final(self)).runtime, cs(*old(self)).runtime)
             && cs(*final(self)).runtime.ping_timeout == (if packet matches FlushedPacket::Control(ControlAction::PingReq)
@@ -4032,6 +4051,7 @@ async fn perform_outbound_step(
             !too_large(cs(*old(self)).runtime.maximum_packet_size, step_bytes(cs(*old(self)).data.outbound, step).len() as usize),
         r matches Err(e) ==> (e is Transport || e is Disconnected) ==> !final(self).live,
         r matches Err(e) ==> (e is Transport || e is Disconnected || e is WriteZero || e == Error::<IoErr>::Resource(ResourceError::PacketTooLarge)),
+        r matches Err(e) ==> e is Disconnected ==> !old(self).live,
         r matches Err(e) ==> (e is WriteZero || e is Resource) ==> final(self).io.wire@ == old(self).io.wire@ && *final(self).session == *old(self).session && final(self).live == old(self).live,
         r matches Ok(b) ==> b,
         r is Ok ==> (match step_state(step) {
@@ -4158,6 +4178,99 @@ async fn perform_outbound_step(
 
         Ok(true)
     }
+
+fn should_queue_pingreq(&self, now: Instant) -> (r: bool)
+    ensures
+        r == ping_due(cs(*self), now),
+{
+        self.session.runtime.ping_timeout.is_none()
+            && (match self
+                .session
+                .runtime
+                .next_ping { Some(deadline) => now >= deadline, None => false })
+            && !self.session.data.outbound.has_pending_pingreq()
+    }
+
+fn maybe_queue_pingreq(&mut self, now: Instant) -> (r: Result<(), Error<IoErr>>)
+    requires
+        conn_inv(*old(self)),
+    ensures
+        final(self).io == old(self).io && final(self).live == old(self).live && final(self).event == old(self).event
+            && cs(*final(self)).runtime == cs(*old(self)).runtime && reader_same(cs(*final(self)).packet_reader, cs(*old(self)).packet_reader)
+            && sd_frame(cs(*final(self)).data, cs(*old(self)).data)
+            && cs(*final(self)).data.pending_server_packet_ids@ == cs(*old(self)).data.pending_server_packet_ids@,
+        !ping_due(cs(*old(self)), now) ==> r is Ok && same_outbound(cs(*final(self)).data.outbound, cs(*old(self)).data.outbound),
+        ping_due(cs(*old(self)), now) ==> (
+            if too_large(cs(*old(self)).runtime.maximum_packet_size, 2) {
+                r == Err::<(), Error<IoErr>>(Error::Resource(ResourceError::PacketTooLarge)) && same_outbound(cs(*final(self)).data.outbound, cs(*old(self)).data.outbound)
+            } else if cs(*old(self)).data.outbound.pending_control@.len() >= MAX_PENDING_CONTROL {
+                r == Err::<(), Error<IoErr>>(Error::Resource(ResourceError::InflightExhausted)) && same_outbound(cs(*final(self)).data.outbound, cs(*old(self)).data.outbound)
+            } else {
+                r is Ok && ctl_pushed(cs(*final(self)).data.outbound, cs(*old(self)).data.outbound, ControlAction::PingReq)
+            }),
+        conn_inv(*final(self)),
+{
+        if self.should_queue_pingreq(now) {
+            (match check_control_packet_size(
+                self.session.runtime.maximum_packet_size,
+                ControlAction::PingReq,
+            ) { Ok(__v) => __v, Err(__e) => return Err(From::from(__e)) });
+            (match self.session
+                .data
+                .outbound
+                .queue_control(ControlAction::PingReq) { Ok(__v) => __v, Err(__e) => return Err(From::from(__e)) });
+        }
+        Ok(())
+    }
+
+async fn service_outbound_once(&mut self, now: Instant) -> (r: Result<bool, Error<IoErr>>)
+    requires
+        conn_inv(*old(self)),
+    ensures
+        !old(self).live ==> final(self).io == old(self).io && !final(self).live,
+        final(self).live ==> old(self).live,
+        r matches Err(e) ==> (e is Transport || e is Disconnected) ==> !final(self).live,
+        r matches Err(e) ==> (e is Transport || e is Disconnected || e is WriteZero || e is Resource),
+        r matches Err(e) ==> e is Disconnected ==> !old(self).live,
+        r matches Ok(b) ==> !b ==> final(self).io == old(self).io && next_step_spec(cs(*final(self)).data.outbound) is None,
+        sd_frame(cs(*final(self)).data, cs(*old(self)).data)
+            && cs(*final(self)).data.pending_server_packet_ids@ == cs(*old(self)).data.pending_server_packet_ids@
+            && final(self).event == old(self).event && final(self).io.inbound@ == old(self).io.inbound@,
+        conn_inv(*final(self)),
+{
+        (match self.maybe_queue_pingreq(now) { Ok(__v) => __v, Err(__e) => return Err(From::from(__e)) });
+        let Some(step) = self.session.data.outbound.next_step() else {
+            return Ok(false);
+        };
+        self.perform_outbound_step(step, now).await
+    }
+
+async fn service(&mut self, now: Instant) -> (r: Result<bool, Error<IoErr>>)
+    requires
+        conn_inv(*old(self)),
+    ensures
+        ping_expired(cs(*old(self)), now) ==> r == Err::<bool, Error<IoErr>>(Error::Disconnected) && !final(self).live && final(self).io == old(self).io,
+        (old(self).live && !ping_expired(cs(*old(self)), now)) ==> !(r matches Err(Error::Disconnected)),
+        !old(self).live ==> final(self).io == old(self).io && !final(self).live,
+        final(self).live ==> old(self).live,
+        r matches Err(e) ==> (e is Transport || e is Disconnected) ==> !final(self).live,
+        r matches Err(e) ==> (e is Transport || e is Disconnected || e is WriteZero || e is Resource),
+        r matches Ok(b) ==> !b ==> final(self).io == old(self).io && next_step_spec(cs(*final(self)).data.outbound) is None,
+        sd_frame(cs(*final(self)).data, cs(*old(self)).data)
+            && cs(*final(self)).data.pending_server_packet_ids@ == cs(*old(self)).data.pending_server_packet_ids@
+            && final(self).event == old(self).event && final(self).io.inbound@ == old(self).io.inbound@,
+        conn_inv(*final(self)),
+{
+        let runtime = &mut self.session.runtime;
+        if (match runtime
+            .ping_timeout { Some(deadline) => now >= deadline, None => false })
+        {
+
+            self.handle_disconnect();
+            return Err(Error::Disconnected);
+        }
+        self.service_outbound_once(now).await
+    }
 }
 
 async fn write_current(connection: &mut VIo, bytes: &[u8]) -> (r: Result<usize, Error<IoErr>>)
@@ -4177,6 +4290,68 @@ async fn write_current(connection: &mut VIo, bytes: &[u8]) -> (r: Result<usize, 
     }
 }
 
+
+/// number of bytes still missing before `packet_available()`; lexicographic with the phase
+pub open spec fn reader_phase(r: PacketReader) -> int { if r.packet_length is None { 1 } else { 0 } }
+pub open spec fn reader_missing(r: PacketReader) -> int {
+    match r.packet_length { Some(t) => t - r.read_bytes, None => 5 - r.read_bytes }
+}
+/// the bytes consumed from the transport since the call are exactly buf[rb0..rb1]; what was
+/// committed before is untouched (stated pointwise so that no extensionality is needed)
+pub open spec fn stream_ext(in1: Seq<u8>, in0: Seq<u8>, buf1: Seq<u8>, buf0: Seq<u8>, rb1: int, rb0: int) -> bool {
+    &&& in1.len() == in0.len() + rb1 - rb0 && 0 <= rb0 <= rb1 <= buf1.len() && buf1.len() == buf0.len()
+    &&& forall|k: int| 0 <= k < in0.len() ==> #[trigger] in1[k] == in0[k]
+    &&& forall|k: int| 0 <= k < rb1 - rb0 ==> #[trigger] in1[in0.len() + k] == buf1[rb0 + k]
+    &&& forall|k: int| 0 <= k < rb0 ==> #[trigger] buf1[k] == buf0[k]
+}
+pub open spec fn reader_ready(r: PacketReader) -> bool {
+    r.packet_length matches Some(t) && r.read_bytes >= t && t <= rbuf(r).len()
+}
+
+async fn fill_packet_reader<'buf>(
+    packet_reader: &mut PacketReader<'buf>,
+    connection: &mut VIo,
+) -> (r: Result<(), Error<IoErr>>)
+    requires
+        reader_inv(*old(packet_reader)),
+    ensures
+        reader_inv(*final(packet_reader)),
+        r is Ok ==> reader_ready(*final(packet_reader)),
+        final(connection).wire@ == old(connection).wire@,
+        r matches Err(e) ==> (e is Transport || e is Disconnected || e == Error::<IoErr>::Peer(PeerError::InvalidPacket)),
+        stream_ext(final(connection).inbound@, old(connection).inbound@, rbuf(*final(packet_reader)), rbuf(*old(packet_reader)),
+            final(packet_reader).read_bytes as int, old(packet_reader).read_bytes as int),
+{
+    while !packet_reader.packet_available() 
+        invariant
+            reader_inv(*packet_reader),
+            connection.wire@ == old(connection).wire@,
+            stream_ext(connection.inbound@, old(connection).inbound@, rbuf(*packet_reader), rbuf(*old(packet_reader)),
+                packet_reader.read_bytes as int, old(packet_reader).read_bytes as int),
+        ensures
+            reader_ready(*packet_reader),
+        decreases reader_phase(*packet_reader), reader_missing(*packet_reader)
+{
+        let buffer = (match packet_reader.receive_buffer() { Ok(__v) => __v, Err(__e) => return Err(From::from(__e)) });
+        if buffer.is_empty() {
+            break;
+        }
+
+        let count = match connection.read(buffer).await {
+            Ok(count) => count,
+            Err(err) => return Err(Error::Transport(err)),
+        };
+        if count == 0 {
+            return Err(Error::Disconnected);
+        }
+        packet_reader.commit(count);
+
+    }
+
+    Ok(())
+}
+
 } // verus!
+
 
 fn main() {}
